@@ -334,3 +334,33 @@ End Ext.
 Theorem open_schedule_independent cx img sched buf r : 1 <= buf ->
   open_io cx (stream_fetch img sched buf) r = open_io cx (img_fetch img) r.
 Proof. intros Hb. apply open_io_ext. intros off len. now apply stream_fetch_ideal. Qed.
+
+(** * tile lookups over the interface *)
+Lemma section_in_range img off len : off + len <= nlen img ->
+  section img off len = firstn (N.to_nat len) (skipn (N.to_nat off) img).
+Proof.
+  intros H. unfold section. destruct (N.leb_spec (nlen img) off) as [A|A].
+  - assert (len = 0) by lia. subst. reflexivity.
+  - replace (N.min len (nlen img - off)) with len by lia. reflexivity.
+Qed.
+
+Theorem get_tile_io_ideal img (s : tm) id : backing s = Some img ->
+  (forall off len, aget id (tile_by_id s) = Some (TOffLen off len) -> 1 <= len) ->
+  get_tile_io (img_fetch img) s id = get_tile s id.
+Proof.
+  intros Hb Hl. unfold get_tile_io, get_tile. destruct (aget id (tile_by_id s)) as [[h|off len]|] eqn:Et; try reflexivity.
+  cbn [tile_content]. rewrite Hb. unfold img_fetch. cbn [bind]. unfold read_at.
+  destruct (N.leb_spec (off + len) (nlen img)) as [Hin|Hout].
+  - rewrite section_length by exact Hin. rewrite N.eqb_refl. cbn [bind]. now rewrite section_in_range.
+  - cbn [bind]. specialize (Hl off len eq_refl).
+    assert (Hne : nlen (section img off len) <> len).
+    { unfold section. destruct (N.leb_spec (nlen img) off); [cbn; lia|].
+      unfold nlen. rewrite firstn_length, skipn_length. unfold nlen in *. lia. }
+    apply N.eqb_neq in Hne. rewrite Hne. reflexivity.
+Qed.
+
+(** a fault while fetching a reader-backed tile is an error, never 'no such tile' and never other bytes *)
+Theorem get_tile_io_fail_stop (bad : N -> N -> bool) fetch (s : tm) id off len :
+  aget id (tile_by_id s) = Some (TOffLen off len) -> bad off len = true ->
+  get_tile_io (fail_on bad fetch) s id = Err EOther.
+Proof. intros Et Hb. unfold get_tile_io, fail_on. rewrite Et, Hb. reflexivity. Qed.
